@@ -1152,15 +1152,40 @@ class Gen:
         c = self.pick(lambda n: hasattr(n, 'spacing_before') and not isinstance(n, models.File))
         if not c:
             return None
+        if rng.random() < 0.2:
+            # near the start of the document: the first store block is the one that has no predecessor to
+            # merge into when an edit shrinks it
+            head = [(ref, n) for ref, n in self.nodes() if ref['r'] == 'doc' and hasattr(n, 'spacing_before')
+                    and not isinstance(n, models.File)][:12]
+            if head:
+                c = rng.choice(head)
         v = ''.join(rng.choice([' ', ' ', '\t', '\n', '\r\n', '  ']) for _ in range(rng.choice([0, 1, 1, 2, 3])))
         return {'op': 'spacing', 't': c[0], 'side': rng.choice(['before', 'after']), 'v': v,
                 'raw': rng.random() < 0.3, 'read_only': rng.random() < 0.3}
 
     def gen_D(self) -> Optional[dict]:
+        if len([m for m in self.s.pool if m is not None]) > 8:
+            return None
+        rng = self.rng
+        if rng.random() < 0.3:
+            # duplicate an item next to itself (copy, then insert the copy): two nodes of one store that print
+            # alike until a later edit touches one of them
+            ws = [(ref, o, m) for ref, o, m in self.wrappers(True) if ref['r'] == 'doc']
+            rng.shuffle(ws)
+            for ref, owner, m in ws[:8]:
+                try:
+                    items = list(self.s.resolve(ref))
+                except Exception:
+                    continue
+                idx = [i for i, it in enumerate(items) if isinstance(it, models.RawTreeModel)]
+                if not idx:
+                    continue
+                i = rng.choice(idx)
+                k = len(self.s.pool)        # the copy becomes the next pool entry
+                self.s.script = [{'op': 'seq', 'k': 'insert', 't': ref, 'm': m.name, 'i': i + 1, 'items': [{'node': {'pool': k}}]}]
+                return {'op': 'deepcopy', 't': {'r': 'doc', 'p': ref['p'] + [i]}}
         c = self.pick(lambda n: isinstance(n, models.RawModel) and not isinstance(n, I.SPECIAL_EXPR))
         if not c:
-            return None
-        if len([m for m in self.s.pool if m is not None]) > 8:
             return None
         return {'op': 'deepcopy', 't': c[0]}
 
